@@ -81,10 +81,10 @@ Proof. exact @file_wrapper_bailout. Qed.
 Theorem C13_wrapper_reraises : forall (F : Type) (empty : F) v, exists b : body (option F), file_wrapper empty b = WPanic v.
 Proof. exact @wrapper_reraises. Qed.
 
-(* ParseExprEx returns p.errors unsorted (its callers append the list to the outer parser's,
-   which the outer wrapper sorts) *)
-Theorem C13_exprex_unsorted_refuted : exists (b : body unit) x es, exprex_wrapper b = WRet x es /\ ~ Sorted pos_le es.
-Proof. exact exprex_wrapper_unsorted. Qed.
+(* ParseExprEx sorts as well (it returns the ErrorList itself) *)
+Theorem C13_exprex_wrapper_sorted : forall (E : Type) (b : body E) x es,
+  exprex_wrapper b = WRet x es -> StronglySorted err_leP es /\ Sorted pos_le es /\ Permutation (snd (b [])) es.
+Proof. exact @exprex_wrapper_sorted. Qed.
 
 (* err == nil  iff  nothing was recorded *)
 Theorem C13_wrapper_err_nil : forall (F : Type) (empty : F) (b : body (option F)) f es,
@@ -195,7 +195,7 @@ Print Assumptions C13_expr_wrapper_panic_iff.
 Print Assumptions C13_exprex_wrapper_panic_iff.
 Print Assumptions C13_wrapper_bailout_swallowed.
 Print Assumptions C13_wrapper_reraises.
-Print Assumptions C13_exprex_unsorted_refuted.
+Print Assumptions C13_exprex_wrapper_sorted.
 Print Assumptions C13_wrapper_err_nil.
 Print Assumptions C13_err_nil_no_bad.
 Print Assumptions C13_dropped_subparser_errors_refuted.
